@@ -13,16 +13,16 @@ LEVEL_TEXT = {
  "C06": "Fault enumeration: the committed state is read through a second read-only connection at EVERY SQL statement boundary and operation return of each generated history (= every process-death point between statements), and real child processes are SIGKILLed / _exit / exit at chosen statements and the reopened file judged the same way. Prefix, no-split, monotonicity, durability-on-return and the <=64 lost-writes bound are decided per crash point.",
  "C07": "Held-on-observed: after every heartbeat of generated streams fed through the standard loop, the bucket is compared with heartbeat_reduce of the prefix (real transform and integer reference) and the neighbouring buckets with their initial dump.",
  "C08": "Held-on-observed: monitor at the boundary of heartbeat_merge / heartbeat_reduce compares every call with an integer-microsecond restatement of the hull rule and the stated normal-form laws.",
- "C09": "Held-on-observed: monitors at filter_period_intersect / period_union compare each result with set-algebra over integer intervals (independent of the timeslot library).",
+ "C09": "Held-on-observed: monitors at filter_period_intersect / period_union compare each result with set-algebra over integer intervals (independent of the timeslot library); a third of the direct cases call a second time on the same objects after one was changed through the public setters.",
  "C10": "Held-on-observed: monitor at flood checks the stated cover laws (per-label cover kept, new cover == exactly the short gaps, output disjoint and positive) on generated sequences with gaps at pulsetime +-1 ms and events that end between milliseconds.",
  "C11": "Held-on-observed: generated ASTs are printed (twice, different spacing) and evaluated by the real interpreter; value AND the call trace recorded at the built-in registry are compared with a reference evaluator working on the AST; the recorder also compares the values handed to every built-in before and after the call.",
- "C12": "Held-on-observed: full dump of all buckets before/after every generated query (incl. failing and in-place-mutating ones) on each backend; query_bucket / eventcount results recorded at the registry compared with direct windowed reads.",
+ "C12": "Held-on-observed: full dump of all buckets before/after every generated query (incl. failing and in-place-mutating ones) on each backend - data of minutes, of a year, of ~2700 tied events, and around the present moment; query_bucket / eventcount results recorded at the registry compared with direct windowed reads; queries that fail inside the store's own read are judged against the acknowledged writes, not against a (flushing) dump.",
  "C13": "Held-on-observed; the millisecond floor is checked for ALL 10^6 microsecond values (exhaustive in that dimension) on several base instants/offsets and both input representations, plus random representations/durations/ids with schema validation and three rebuild paths.",
  "C14": "Held-on-observed: real legacy databases built by PeeweeStorage in a private XDG_DATA_HOME, migrated by constructing the default SqliteStorage; bucket sets, metadata, event multisets and the legacy file hash compared.",
  "C15": "Held-on-observed: monitor at union_no_overlap compares each result with interval subtraction/union in integer microseconds.",
  "C16": "Held-on-observed: monitors at the six functions check bijection with key-presence/value groups, exact duration sums, run structure, permutation+order, prefix and complementary sub-sequences.",
- "C17": "Held-on-observed: hundreds of thousands of random, corrupted, targeted and single-fault texts run under an activation budget (sys.monitoring PY_START in aw_query/) with outcome-class checks; scope of 'escaped' decided structurally from the traceback.",
- "C18": "Fault enumeration of the 'crash right after a write returns' point: 16 real 12-second pauses per run (ground truth, observer connection) plus thousands of virtual-clock schedules that count only when the virtual twin of the real scenario agrees with real time.",
+ "C17": "Held-on-observed: hundreds of thousands of random, corrupted, targeted, long and single-fault texts run under an activation budget (sys.monitoring PY_START in aw_query/) and a processor-time budget with outcome-class checks; scope of 'escaped' decided structurally from the traceback; stack-limit sweeps judge every nesting depth around the point where the interpreter's stack runs out (located by bisection, mostly under a reduced stack limit).",
+ "C18": "Fault enumeration of the 'crash right after a write returns' point: 32 real 12-15 second pauses per quick run (19 scenarios incl. a reopened store and an empty bucket; ground truth through an observer connection) plus thousands of virtual-clock schedules that count only when the virtual twin of the real scenario agrees with real time.",
  "C19": "Held-on-observed: monitors at categorize / tag / split_url_events / simplify_string check the frame condition (same events, order, time, unrelated data) and the stated matching rule against an independent matcher built from the rule dicts.",
  "C20": "Held-on-observed: generated (default, user) TOML pairs from a syntax-varying emitter; result compared with a tomllib-based reference deep merge (with explicit scalar types), user file bytes compared, first-run law over three consecutive loads.",
 }
@@ -31,7 +31,7 @@ NOTE = {
  "C18": "Same trusted base as C06; the age of a write is measured from the latest operation that may have flushed (an upper bound on the real last flush), and a late write - single event or batch - must be fully committed when its call returns.",
 }
 TECH = {
- "C01": "runtime monitoring: round-trip + aliasing oracle on real stores",
+ "C01": "runtime monitoring: round-trip + aliasing oracle on real stores (every read shape, a second Datastore on the same file, bulk sweeps under stock SQLite statement limits)",
  "C02": "runtime monitoring: history vs executable reference model, full-state comparison after every op",
  "C03": "runtime monitoring: must/may window oracle with edge tolerance",
  "C04": "runtime monitoring: frame-condition snapshots around every operation",
@@ -41,13 +41,13 @@ TECH = {
  "C08": "runtime monitoring: function-boundary monitor vs integer reference rule",
  "C09": "runtime monitoring: function-boundary monitor vs integer interval algebra",
  "C10": "runtime monitoring: function-boundary monitor vs interval cover laws",
- "C11": "runtime monitoring: registry call-trace recorder (incl. each built-in's arguments before/after the call) + reference evaluator + metamorphic spacing",
+ "C11": "runtime monitoring: registry call-trace recorder (incl. each built-in's arguments and the program's namespace before/after the call) + reference evaluator + metamorphic spacing",
  "C12": "runtime monitoring: store dumps around queries + registry result recorder",
  "C13": "runtime monitoring: exhaustive microsecond sweep + randomized representation oracle + schema validation",
  "C14": "runtime monitoring: end-to-end migration in private XDG dirs, content and file-hash oracle",
  "C15": "runtime monitoring: function-boundary monitor vs integer interval algebra",
  "C16": "runtime monitoring: function-boundary monitors with conservation oracles",
- "C17": "runtime monitoring: outcome classifier + sys.monitoring activation budget + traceback scope rule",
+ "C17": "runtime monitoring: outcome classifier + sys.monitoring activation budget + ITIMER_VIRTUAL processor-time budget + traceback scope rule + stack-limit sweeps under a reduced recursion limit",
  "C18": "runtime monitoring + fault injection: real sleeps, calibrated virtual clock, observer connection after each write",
  "C19": "runtime monitoring: function-boundary monitors, frame condition + independent rule matcher",
  "C20": "runtime monitoring: reference deep merge (tomllib) + file-bytes oracle",
